@@ -71,6 +71,8 @@ def explore(ctx):
         lines = [build_line(rng, segs) for _ in range(rng.randint(1, 5))]
         use_from = rng.random() < 0.25
         if use_from:
+            # a field value may contain line breaks: a wildcard spans them, a pattern blank matches them
+            lines = [(l.replace(' ', '\n', 1) if rng.random() < 0.5 else l[::-1].replace(' ', '\n', 1)[::-1]) if rng.random() < 0.35 else l for l in lines]
             stages = [('json', None), ('parse', pat, fields, col('msg'), nodrop, noconvert)]
             inp = [json.dumps({'msg': l, 'f1': 'old'}) + '\n' for l in lines]
         else:
